@@ -151,6 +151,21 @@ PROPS = {
         technique="Verus one-step contracts tying Parser methods to the string-function specs + Kani bounded equivalence and split-protocol harnesses",
         assumptions=["the induction from the one-step split contract to `the sequence of pieces is str::split's` is written in DESIGN.md, not machine-checked; Kani checks whole sequences for bounded strings"],
     ),
+    "C01": dict(_p(
+        "Safe API never triggers UB; results stay inside the input and are valid UTF-8",
+        kani=["c01", "c02", "c07", "c11", "c15", "c20"], verus=["c04s", "c05s", "c20", "c07"], level="proof",
+        level_text="Every `unsafe` token of konst/konst_kernel is inventoried on each run (66 today) and mapped to the contract unit or harness that carries its safety obligation (contracts/C01.sites.json, copied into the evidence). "
+                   "Verus (unbounded): preconditions of ptr::offset / slice::from_raw_parts (results inside the argument's allocation) for the shared slice kernel; precondition of from_utf8_unchecked at all 20 string sites "
+                   "via the proved cut / match-cut / ascii-prefix / repetition lemmas, with postconditions `result bytes == sub-range of the argument` on char boundaries; CStr::from_bytes_with_nul_unchecked's precondition. "
+                   "Kani complete: char transmutes and from_u32_unchecked (all u32 / all chars), ManuallyDrop/MaybeUninit/NonNull casts. Kani bounded: _mut slice variants, as_chunks, try_into_array, MaybeUninit arrays, "
+                   "ArrayBuilder/ArrayConsumer, destructure!, the CStr pointer walk",
+        technique="unsafe-site inventory + Verus safety preconditions on assumed std contracts (relational raw-pointer axioms, from_utf8_unchecked) + Kani pointer/validity checks for the sites outside Verus",
+        assumptions=["aliasing models (Stacked/Tree Borrows) are not checked by either engine", "const-evaluation-only restrictions are not modelled (both engines reason about the MIR semantics shared with run time)",
+                     "alignment UB is invisible to Kani", "exported `unsafe fn`s (ptr::as_ref, manually_drop::take, assume_init_mut, from_u32_unchecked, array_assume_init) are outside `safe public function`"],
+        unchecked=["macro forms not enumerated by the C11/C15 harness families"],
+    ), inventory=True,
+       kani_filter="^(c01_|c02_mut_u16$|c02_chunks_u16_2$|c02_try_into_array_mut$|c07_contract_|c07_decode_encode_id$|c07_encode_utf8$|c11_map_ok_n2$|c11_map_break_panics_n2$|c11_builder_ops_n2$|c11_builder_build_nonfull_panics$|c15_consumer_n2$|c15_builder_n2$|c15_destructure_arrays$|c20_cstr)",
+       kani_filter_thorough="^(c01_|c02_mut_|c02_chunks_|c02_try_into_array|c07_contract_|c07_decode_encode_id$|c07_encode_utf8$|c07_from_u32$|c11_|c15_|c20_cstr)"),
 }
 
 NOT_APPLICABLE = {
@@ -161,7 +176,6 @@ NOT_APPLICABLE = {
 
 # properties whose check is not built yet (listed under not_applicable until it is)
 PENDING = {
-    "C01": "check under construction (unsafe-site inventory + V preconditions)",
     "C06": "check under construction",
     "C19": "check under construction",
 }
